@@ -155,7 +155,136 @@ def _child(task, conn):
         conn.close()
 
 
+class SolverPool:
+    """Persistent solver workers, forked early (while the parent is still small).  A worker that
+    overruns its task's hard deadline is killed and replaced."""
+
+    def __init__(self, n):
+        self.ctx = mp.get_context("fork")
+        self.n = n
+        self.workers = []
+        for _ in range(n):
+            self.workers.append(self._spawn())
+
+    def _spawn(self):
+        pin, cout = self.ctx.Pipe(duplex=False)     # parent reads results
+        cin, pout = self.ctx.Pipe(duplex=False)     # parent writes tasks
+        p = self.ctx.Process(target=_worker_loop, args=(cin, cout), daemon=True)
+        p.start()
+        cin.close()
+        cout.close()
+        return {"p": p, "rx": pin, "tx": pout, "task": None, "deadline": 0, "t0": 0}
+
+    def _kill(self, w):
+        try:
+            w["p"].terminate()
+            w["p"].join(timeout=1)
+            if w["p"].is_alive():
+                w["p"].kill()
+        except Exception:
+            pass
+        for c in (w["rx"], w["tx"]):
+            try:
+                c.close()
+            except Exception:
+                pass
+
+    def close(self):
+        for w in self.workers:
+            self._kill(w)
+        self.workers = []
+
+    def run(self, tasks, grace_s=3.0, cancel_siblings=False):
+        from multiprocessing.connection import wait
+        queue = list(tasks)[::-1]
+        decided = set()
+        busy = lambda: [w for w in self.workers if w["task"] is not None]
+        while queue or busy():
+            for i, w in enumerate(self.workers):
+                if w["task"] is None and queue:
+                    t = queue.pop()
+                    if t[0] in decided:
+                        continue
+                    try:
+                        w["tx"].send(t)
+                    except Exception:
+                        self._kill(w)
+                        w = self.workers[i] = self._spawn()
+                        w["tx"].send(t)
+                    w["task"], w["t0"] = t, time.time()
+                    w["deadline"] = time.time() + t[3] / 1000.0 + grace_s
+            bs = busy()
+            if not bs:
+                continue
+            ready = wait([w["rx"] for w in bs], timeout=0.2)
+            now = time.time()
+            for i, w in enumerate(self.workers):
+                if w["task"] is None:
+                    continue
+                t = w["task"]
+                if w["rx"] in ready:
+                    try:
+                        res = w["rx"].recv()
+                    except (EOFError, OSError):
+                        res = (t[0], t[2], "error:solver process died", now - w["t0"], None)
+                        self._kill(w)
+                        self.workers[i] = self._spawn()
+                        yield res
+                        continue
+                    w["task"] = None
+                    if cancel_siblings and res[2] in ("sat", "unsat"):
+                        decided.add(res[0])
+                        for j, w2 in enumerate(self.workers):
+                            if w2["task"] is not None and w2["task"][0] == res[0] and w2 is not w:
+                                self._kill(w2)
+                                self.workers[j] = self._spawn()
+                    yield res
+                elif now > w["deadline"]:
+                    self._kill(w)
+                    self.workers[i] = self._spawn()
+                    yield (t[0], t[2], "timeout", now - w["t0"], None)
+
+
+def _worker_loop(rx, tx):
+    while True:
+        try:
+            t = rx.recv()
+        except (EOFError, OSError):
+            return
+        try:
+            tx.send(_task(t))
+        except Exception as e:
+            try:
+                tx.send((t[0], t[2], "error:%s" % e, 0.0, None))
+            except Exception:
+                return
+
+
+POOL = None
+
+
+def start_pool(n):
+    global POOL
+    if POOL is None:
+        POOL = SolverPool(n)
+    return POOL
+
+
+def stop_pool():
+    global POOL
+    if POOL is not None:
+        POOL.close()
+        POOL = None
+
+
 def run_tasks(tasks, jobs, grace_s=3.0, cancel_siblings=False):
+    if POOL is not None:
+        yield from POOL.run(tasks, grace_s, cancel_siblings)
+        return
+    yield from _run_tasks_fork(tasks, jobs, grace_s, cancel_siblings)
+
+
+def _run_tasks_fork(tasks, jobs, grace_s=3.0, cancel_siblings=False):
     """Run solver tasks in forked children, at most `jobs` at a time, each with a hard kill
     at its own timeout + grace.  Yields (idx, solver, status, seconds, model).
     With cancel_siblings, a sat/unsat answer for an obligation stops the other solvers still
